@@ -12,103 +12,16 @@ Definition bt (v : slice) (i : nat) : N := nth i (arr v) 0.
 Definition w16 (v : slice) (i : nat) : N := bt v i * 256 + bt v (i + 1).
 Definition is (name want : string) : bool := String.eqb name want.
 
-(* ---- IP4 ---- *)
-(* #3: IsValid accepts TotalLen < IHL; Payload() = p[IHL:TotalLen] panics *)
-Definition k_ip4_payload : finding :=
-  mkFinding "view-ip4-payload-totallen-lt-ihl"
-    (fun name v => is name "Payload" && (w16 v 2 <? 4 * (bt v 0 mod 16))).
-(* #4: Fragment() computes (hi<<8) & lo, which is 0 for every input *)
-Definition k_ip4_fragment : finding :=
-  mkFinding "view-ip4-fragment-and"
-    (fun name v => is name "Fragment" && negb ((bt v 6 mod 32) * 256 + bt v 7 =? 0)).
-Definition IP4_findings_C01 : list finding := [k_ip4_payload].
-Definition IP4_findings_C02 : list finding := [k_ip4_payload; k_ip4_fragment].
-
-(* ---- TCP ---- *)
-(* #5: HeaderLen()/Payload() use the data offset in 32-bit words as a byte count *)
-Definition k_tcp_words : finding :=
-  mkFinding "view-tcp-headerlen-words"
-    (fun name v => (is name "HeaderLen" || is name "Payload") && negb (bt v 12 / 16 =? 0)).
-Definition TCP_findings_C01 : list finding := [].
-Definition TCP_findings_C02 : list finding := [k_tcp_words].
+(* The classes of IP4 (#3 #4), TCP (#5), LLC (#6), LLDP (#7), Ether.SrcIP/DstIP (#8), ICMP4Redirect.Addrs and the
+   RS SourceLLA/Options layout (#10) were repaired in /repo (known_findings.txt "fixed:" lines, FIXLOG.md);
+   their predicates are gone with them.  What remains: *)
 
 (* ---- Ether ---- *)
 Definition eth_hlen (v : slice) : nat :=
   if w16 v 12 =? 33024 then 18%nat else if w16 v 12 =? 34984 then 22%nat else 14%nat.
-(* #8: Payload() of a header-only frame returns p[n:cap(p)]: outside the view, capacity dependent *)
+(* #8: Payload() of a header-only frame returns p[n:cap(p)]: outside the view, capacity dependent
+   (documented encoder idiom: "return the full buffer - we are likely building a packet"; not repaired) *)
 Definition k_ether_payload : finding :=
   mkFinding "view-ether-payload-spare-capacity"
     (fun name v => is name "Payload" && Nat.eqb (len v) (eth_hlen v) && Nat.ltb (len v) (cap v)).
-(* #8: SrcIP()/DstIP() index the IP header without checking that the payload holds one *)
-Definition k_ether_ip : finding :=
-  mkFinding "view-ether-srcip-dstip-short-payload"
-    (fun name v =>
-       (is name "SrcIP" && (((w16 v 12 =? 2048) && Nat.ltb (len v) 30) || ((w16 v 12 =? 34525) && Nat.ltb (len v) 38))) ||
-       (is name "DstIP" && (((w16 v 12 =? 2048) && Nat.ltb (len v) 34) || ((w16 v 12 =? 34525) && Nat.ltb (len v) 54)))).
-Definition Ether_findings : list finding := [k_ether_payload; k_ether_ip].
-
-(* ---- LLC ---- *)
-Definition llc_u (v : slice) : bool :=
-  (bt v 2 mod 4 =? 3) && negb ((bt v 2 =? 3) && (bt v 0 =? 170) && (bt v 1 =? 170)).
-Definition llc_snap (v : slice) : bool := (bt v 2 =? 3) && (bt v 0 =? 170) && (bt v 1 =? 170).
-(* #6: Payload() = p[4:] on a valid 3-byte frame that is not in the U format *)
-Definition k_llc_short : finding :=
-  mkFinding "view-llc-payload-3-bytes"
-    (fun name v => is name "Payload" && Nat.eqb (len v) 3 && negb (llc_u v)).
-(* a SNAP frame (AA AA 03) is a U frame: its information field starts at 3, Payload() returns p[4:] *)
-Definition k_llc_snap : finding :=
-  mkFinding "view-llc-payload-snap-offset" (fun name v => is name "Payload" && llc_snap v).
-Definition LLC_findings_C01 : list finding := [k_llc_short].
-Definition LLC_findings_C02 : list finding := [k_llc_short; k_llc_snap].
-
-(* ---- LLDP ---- *)
-(* #7: getTLV returns p[n+2:n+l]: panics when the 9-bit length l is 0 (type != 0) or 1, and is l-2 bytes
-   instead of l otherwise.  TLV header at n as the code reads it: *)
-Definition lldp_t (v : slice) (n : nat) : N := bt v n / 2.
-Definition lldp_l (v : slice) (n : nat) : N := (bt v n mod 2) * 256 + bt v (n + 1).
-Definition lldp_end (v : slice) (n : nat) : bool := (lldp_t v n =? 0) && (lldp_l v n =? 0).
-Definition lldp_fits (v : slice) (n : nat) : bool := Nat.ltb (n + 2 + N.to_nat (lldp_l v n) + 2) (len v).
-(* getTLV(n) panics *)
-Definition lldp_bad (v : slice) (n : nat) : bool :=
-  Nat.ltb (n + 2) (len v) && negb (lldp_end v n) && lldp_fits v n && (lldp_l v n <? 2).
-(* position of the second getTLV call of PortID: len(ChassisID()) + 2 *)
-Definition lldp_n2 (v : slice) : nat :=
-  if Nat.ltb 2 (len v) && negb (lldp_end v 0) && lldp_fits v 0 then (N.to_nat (lldp_l v 0) - 2 + 2)%nat else 2%nat.
-(* some TLV on the path of the FastLog walk makes getTLV panic *)
-Fixpoint lldp_walk_bad (fuel : nat) (v : slice) (pos : nat) : bool :=
-  match fuel with
-  | O => false
-  | S f =>
-      if lldp_bad v pos then true else
-      if Nat.leb (len v) (pos + 2) then false else
-      if lldp_end v pos then false else
-      if negb (lldp_fits v pos) then false else
-      if lldp_t v pos =? 0 then false else
-      lldp_walk_bad f v (pos + N.to_nat (lldp_l v pos) + 2)
-  end.
-Definition k_lldp_panic : finding :=
-  mkFinding "view-lldp-gettlv-short-length"
-    (fun name v => (is name "ChassisID" && lldp_bad v 0) ||
-                   (is name "PortID" && (lldp_bad v 0 || lldp_bad v (lldp_n2 v))) ||
-                   (is name "String" && lldp_walk_bad (S (len v)) v 0)).
-(* the value range is wrong for every TLV that is not the End TLV *)
-Definition k_lldp_range : finding :=
-  mkFinding "view-lldp-gettlv-range"
-    (fun name v => (is name "ChassisID" || is name "PortID") && (negb (lldp_end v 0) || negb (lldp_end v 2))).
-Definition LLDP_findings_C01 : list finding := [k_lldp_panic].
-Definition LLDP_findings_C02 : list finding := [k_lldp_panic; k_lldp_range].
-
-(* ---- ICMP4Redirect ---- *)
-(* #10: Addrs() computes entry positions from 0, ignoring the 8-byte header *)
-Definition k_r4_addrs : finding :=
-  mkFinding "view-icmp4redirect-addrs-offset" (fun name v => is name "Addrs" && negb (bt v 4 =? 0)).
-Definition R4_findings_C02 : list finding := [k_r4_addrs].
-
-(* ---- ICMP6 RS / RA ---- *)
-(* SourceLLA() of an RS looks for a 24-byte option (length 3) and returns 16 bytes; RFC 4861: length 1, 6 bytes *)
-Definition k_rs_sourcella : finding :=
-  mkFinding "view-rs-sourcella-layout"
-    (fun name v => is name "SourceLLA" &&
-       ((Nat.leb 26 (len v) && (bt v 8 =? 1) && (bt v 9 =? 3)) || (Nat.leb 16 (len v) && (bt v 8 =? 1) && (bt v 9 =? 1)))).
-Definition RS_findings_C01 : list finding := [].
-Definition RS_findings_C02 : list finding := [k_rs_sourcella].
+Definition Ether_findings : list finding := [k_ether_payload].
